@@ -9,7 +9,9 @@ VARIABLES cfg, hist, cache, reqs
 
 \* point 3 lies a few parts per million from point 1: a different point for the request machine
 Calls == [k : {"F"}, pt : 1..2, batch : 1..2] \cup [k : {"G", "FG"}, pt : 1..2, batch : {1}] \cup [k : {"G"}, pt : {3}, batch : {1}]
+\* (the last pattern has a negative weight: legal as long as the sum is positive, and certainly not "inactive")
 RWs(R) == {[r \in 1..R |-> 1], [r \in 1..R |-> IF r = 1 THEN 0 ELSE r], [r \in 1..R |-> IF r = R THEN 0 ELSE 1]}
+          \cup (IF R >= 2 THEN {[r \in 1..R |-> IF r = 2 THEN -1 ELSE 3]} ELSE {})
 
 Init == /\ \E R \in RSet : \E P \in PSet : \E rw \in RWs(R) :
            \E filt \in {"none", "sortobj", "sortobjcon", "cvarobj", "cononly", "conmixed"} : \E tf \in BOOLEAN : \E memo \in {"fresh", "arrays", "object", "roviews"} :
